@@ -100,6 +100,12 @@ fn json_str(s: &str) -> String {
 fn value_to_json(value: &DataValue) -> String {
     match value {
         DataValue::String(s) => json_str(s),
+        DataValue::Datetime(d) => json_str(&d.to_rfc3339()),
+        DataValue::Float(f) if !f.is_finite() => "null".to_string(), //JSON has no NaN or infinity
+        DataValue::List(values) => {
+            let items: Vec<String> = values.iter().map(value_to_json).collect();
+            format!("[ {} ]", items.join(", "))
+        }
         x => x.to_string(),
     }
 }
